@@ -116,6 +116,25 @@ def shard(args):
                         acc.failure("C11:narrow_columns_raises_other:" + type(ex).__name__, {"f": C.show_spec(spec), "columns": columns}, repr(ex))
                 if C.snapshot(f) != snap:
                     acc.failure("C11:operand_changed", {"f": C.show_spec(spec)}, "")
+    # longer strings and wider limits: 8..40 characters from repeating patterns, 1..8 runs, columns up to 20
+    jj = 0
+    for pat in ("a", "Ｅ", "a漢", "Ｅ\u0300a", "a\u0300\u0300Ｅ", "ＥＥa", "aaＥ"):
+        for total in (8, 16, 17, 33, 40):
+            text = (pat * total)[:total]
+            for nruns in (1, 2, 5, 8):
+                jj += 1
+                if jj % nshards != idx:
+                    continue
+                step = max(1, total // nruns)
+                parts = [text[j : j + step] for j in range(0, total, step)]
+                spec = tuple((p_, C.P3[k % 3]) for k, p_ in enumerate(parts))
+                f = C.build(spec)
+                fc = C.cells(f)
+                for columns in (2, 3, 4, 5, 7, 8, 9, 15, 16, 17, 20):
+                    case = {"f": C.show_spec(spec), "columns": columns}
+                    acc.case(True, key=("long", spec, columns), sample=case)
+                    acc.transitions += 1
+                    check(acc, f, fc, columns, case)
     # values whose runs are the same objects repeated (f*2, f+f, join)
     j = 0
     for n in range(1, 4 if not thorough else 5):
